@@ -409,7 +409,7 @@ static void generate(RunSpec& s, int tier) {
     uint64_t k = r(100);
     if (profile == 1) o.code = k < 45 ? T_CREATE : k < 80 ? T_REMOVE : k < 90 ? S_WAIT : C_PAIR;
     else if (profile == 2) o.code = k < 14 ? L_LISTEN : k < 20 ? L_REMOVE : k < 34 ? E_ADDR : k < 46 ? E_HOST : k < 54 ? E_REMOVE : k < 62 ? C_PAIR : k < 74 ? C_REMOVE : k < 80 ? C_WRITE : k < 84 ? S_ACCEPTPOLICY : k < 92 ? S_WAIT : S_INTERRUPT;
-    else if (profile == 5) o.code = i == 0 ? C_CROWD : (i == 2 || k < 8) ? C_CROWDGONE : k < 16 ? C_CROWD : k < 50 ? C_PAIR : k < 62 ? C_WRITE : k < 74 ? C_REMOVE : k < 80 ? C_WRITEALL : k < 92 ? S_WAIT : T_CREATE;
+    else if (profile == 5) o.code = i == 0 ? C_CROWD : (i == 2 || k < 8) ? C_CROWDGONE : k < 16 ? C_CROWD : k < 50 ? C_PAIR : k < 62 ? C_WRITE : k < 74 ? C_REMOVE : k < 80 ? C_WRITEALL : k < 87 ? S_WAIT : k < 95 ? E_HOST : T_CREATE;   /* look-ups complete (a one-shot wake-up of the loop) while many sockets are ready */
     else if (profile == 4) o.code = (i < 3 || k < 30) ? C_PAIR : k < 55 ? C_CLOSEFAR : k < 75 ? C_WRITEALL : k < 82 ? C_REMOVE : k < 88 ? C_WRITE : k < 94 ? S_WAIT : T_CREATE;
     else o.code = k < 14 ? T_CREATE : k < 24 ? T_REMOVE : k < 32 ? L_LISTEN : k < 36 ? L_REMOVE : k < 43 ? E_ADDR : k < 49 ? E_HOST : k < 54 ? E_REMOVE : k < 63 ? C_PAIR : k < 72 ? C_REMOVE : k < 79 ? C_WRITE : k < 83 ? C_SUSPEND : k < 87 ? C_RESUME : k < 91 ? S_INTERRUPT : k < 97 ? S_WAIT : S_ACCEPTPOLICY;
     if (o.code == T_CREATE && r(2)) o.a[1] = r(3);
